@@ -20,8 +20,9 @@ def mech(tier, seed):
 def generators(tier, seed):
     if tier == "quick":
         return [dict(module="MC_C03", cfg="MC_C03_q2", workers=4),
-                dict(module="MC_C03", cfg="MC_C03_q", workers=4, limit=8000)]
-    return [dict(module="MC_C03", cfg="MC_C03_q", workers=8)]
+                dict(module="MC_C03", cfg="MC_C03_q", workers=4, limit=8000),
+                dict(module="MC_C03", cfg="MC_C03_r", workers=4, limit=3000)]         # pseudo-random trees (WorldRnd)
+    return [dict(module="MC_C03", cfg="MC_C03_q", workers=8), dict(module="MC_C03", cfg="MC_C03_rt", workers=8)]
 
 MANIFEST = dict(
     design_ref='DESIGN.md §5 C03',
